@@ -214,7 +214,10 @@ def f_padding():
         t = link_pkts(s, rng, lambda l, i, p: True, pos)
         l, i, p = t
         p.pad = rng.choice([16, 17, 20, 31, 40])
-        return dict(target=("rdh", l, i), what="%d bytes of 0xFF padding" % p.pad, text="Payload error")
+        only_ff = pos == "last" and i > 0
+        if only_ff:
+            p.words = []          # degenerate: the payload consists of nothing but the padding
+        return dict(target=("rdh", l, i), what="%d bytes of 0xFF padding%s" % (p.pad, " and no word at all" if only_ff else ""), text="Payload error")
     return Fault("more than 15 bytes of 0xFF at the end of the payload", set(), ITS3, False, apply)
 
 
